@@ -13,6 +13,7 @@ package main
 //	return                                              (deferred unlocks / closes, LIFO), ret
 //	calls of the protocol's own functions               call "recv.Method"
 //	verifSync("name")                                   sync name
+//	X.vms[vm] = …  /  delete(X.vms, vm)                  poolAdd, poolDel (pool membership)
 //
 // Everything else is dropped.  The generator fails closed: a protocol function that
 // is missing, a Lock/Unlock/Store/Load in a syntactic position it does not
@@ -114,6 +115,11 @@ func (g *aoGen) callOp(c *ast.CallExpr) string {
 		case "close":
 			if len(c.Args) == 1 {
 				return ".close " + q(exprText(c.Args[0]))
+			}
+		case "delete":
+			// removal of a child VM from the pool's membership map
+			if len(c.Args) == 2 && strings.HasSuffix(exprText(c.Args[0]), ".vms") {
+				return ".poolDel " + q(exprText(c.Args[0]))
 			}
 		}
 	case *ast.SelectorExpr:
@@ -274,6 +280,10 @@ func (g *aoGen) stmt(s ast.Stmt) {
 		}
 		for _, l := range x.Lhs {
 			g.expr(l)
+			// registration of a child VM in the pool's membership map
+			if ix, ok := l.(*ast.IndexExpr); ok && strings.HasSuffix(exprText(ix.X), ".vms") {
+				g.emit(".poolAdd " + q(exprText(ix.X)))
+			}
 		}
 	case *ast.DeclStmt:
 		if gd, ok := x.Decl.(*ast.GenDecl); ok {
@@ -471,6 +481,7 @@ inductive SOp where
   | ifBegin | elseBegin | elseEnd | ifEnd | caseBegin | caseEnd
   | funcBegin | funcEnd | deferFunc | deferCall (f : String) | goto
   | call (f : String) | sync (name : String) | ret
+  | poolAdd (x : String) | poolDel (x : String)
   deriving DecidableEq, Repr
 
 open SOp
